@@ -45,7 +45,8 @@ def render_special(n, m):
     T, O = "T%d" % n, "O%d" % n
     decl = {"opaque": "    #[diplomat::opaque]\n    pub struct %s(u8);\n" % T,
             "struct": "    pub struct %s {\n        pub a: u8,\n    }\n" % T,
-            "enum": "    pub enum %s {\n        A,\n        B,\n    }\n" % T}[tk]
+            "enum": "    pub enum %s {\n        A,\n        B,\n    }\n" % T,
+            "outstruct": "    #[diplomat::out]\n    pub struct %s {\n        pub a: u8,\n    }\n" % T}[tk]
     decl += "    #[diplomat::opaque]\n    pub struct %s(u8);\n" % O
     selfs = {"none": [], "ref": ["&self"], "mut": ["&mut self"], "val": ["self"]}[m["self"]]
     ptxt = {"same_ref": "&%s" % T, "same_mut": "&mut %s" % T, "same_opt": "Option<&%s>" % T, "same_val": T, "prim": "u8"}
